@@ -679,7 +679,12 @@ def rule_node(ctx):
                 st.value.func.value.value.attr == "info":
             drops.append(n.id)
     k = ctx.key(rn, "C02-NODE", "whole-entry")
-    if drops and fl.cfg.all_paths_pass(fl.cfg.entry.id, drops):
+    kept = [(n, key_) for kind, key_, _, n, _, _ in C.info_key_accesses(rn) if kind == "store"]
+    if kept:
+        r.violation(k, C.loc(rn, kept[0][0]), f"_remove_node re-inserts the cached entry "
+                    f"'{kept[0][1]}' of the node it removes: a value computed for the old "
+                    "structure / sliced set survives the removal")
+    elif drops and fl.cfg.all_paths_pass(fl.cfg.entry.id, drops):
         r.ok(k, rn.loc, "every path through _remove_node drops the node's whole info entry")
     else:
         p = fl.cfg.path_avoiding(fl.cfg.entry.id, drops)
@@ -688,4 +693,15 @@ def rule_node(ctx):
     return r
 
 
-RULES = [rule_keys, rule_deps, rule_lists, rule_closure, rule_root, rule_cores, rule_node]
+def rule_presurv(ctx):
+    """Shared with C18-SURV: legs pre-supplied by the annealing move evaluator are
+    cached as the node's legs and decide which indices are summed where."""
+    from .c18 import rule_surv
+
+    return C.reuse_rule(ctx, rule_surv, "C18-SURV", "C02-PRESURV",
+                        "legs handed to contract_nodes_pair follow the tree's survival rule",
+                        lambda i: C.ANNEAL in i.construct, 3)
+
+
+RULES = [rule_keys, rule_deps, rule_lists, rule_closure, rule_root, rule_cores, rule_node,
+         rule_presurv]
